@@ -68,7 +68,7 @@ func c01Command(rc *RunCtx, t *simrt.Tape) {
 	os.WriteFile(in, compress(codec, fc.Text), 0644)
 	out := filepath.Join(dir, "out.fastx")
 	args := []string{"--max-cpu", fmt.Sprint(p.MaxCPU), "--batch-size", fmt.Sprint(p.BatchSize), "-o", out}
-	spec := CmdSpec{Name: "obiconvert", Dir: dir, PoolPolicy: p.Pool, YieldDensity: p.Yield}
+	spec := CmdSpec{Name: "obiconvert", Dir: dir, PoolPolicy: p.Pool, YieldDensity: p.Yield, StderrNull: p.ErrNull}
 	if p.Chunk > 0 {
 		spec.Knobs = map[string]int{"chunk": p.Chunk}
 	}
@@ -232,7 +232,7 @@ func c17Command(rc *RunCtx, t *simrt.Tape) {
 	in := filepath.Join(dir, "in"+ext+codecExt[codec])
 	os.WriteFile(in, data, 0644)
 	out := filepath.Join(dir, "out.fastx")
-	spec := CmdSpec{Name: "obiconvert", Dir: dir, PoolPolicy: p.Pool, YieldDensity: p.Yield}
+	spec := CmdSpec{Name: "obiconvert", Dir: dir, PoolPolicy: p.Pool, YieldDensity: p.Yield, StderrNull: p.ErrNull}
 	args := []string{"--max-cpu", fmt.Sprint(p.MaxCPU), "--batch-size", fmt.Sprint(p.BatchSize), "-o", out}
 	transport := "file"
 	if viaStdin {
@@ -352,7 +352,7 @@ func c17StdinError(rc *RunCtx, t *simrt.Tape) {
 	os.MkdirAll(dir, 0755)
 	defer cleanup(dir)
 	out := filepath.Join(dir, "out.fastx")
-	spec := CmdSpec{Name: "obiconvert", Dir: dir, PoolPolicy: p.Pool, YieldDensity: p.Yield,
+	spec := CmdSpec{Name: "obiconvert", Dir: dir, PoolPolicy: p.Pool, YieldDensity: p.Yield, StderrNull: p.ErrNull,
 		Args: []string{"--max-cpu", fmt.Sprint(p.MaxCPU), "--batch-size", fmt.Sprint(p.BatchSize), "-o", out}}
 	how := "directory"
 	k := 0
@@ -412,7 +412,7 @@ func c18Command(rc *RunCtx, t *simrt.Tape) {
 	p := drawParCfg(t, n)
 	args := []string{"--max-cpu", fmt.Sprint(p.MaxCPU), "--batch-size", fmt.Sprint(p.BatchSize)}
 	where := "stdout"
-	spec := CmdSpec{Name: name, Dir: dir, PoolPolicy: p.Pool, YieldDensity: p.Yield}
+	spec := CmdSpec{Name: name, Dir: dir, PoolPolicy: p.Pool, YieldDensity: p.Yield, StderrNull: p.ErrNull}
 	format := "fastx"
 	switch name {
 	case "obiconvert":
